@@ -361,6 +361,18 @@ func GSelfTest() error {
 	if ex, _ := GExactSum([]float64{5e-324, math.MaxFloat64, -math.MaxFloat64}); GFloat(ex) != 5e-324 {
 		return fmt.Errorf("GExactSum range: %v", ex)
 	}
+	if in := GSumAnalyze([]float64{1e308, 1e308}); in.Overflows != 1 || !in.PosCan || in.NegCan {
+		return fmt.Errorf("GSumAnalyze {1e308,1e308}: %+v", in)
+	}
+	if in := GSumAnalyze([]float64{1e308, -1e308, 1e308, math.Inf(-1)}); in.Overflows != 0 || !in.PosCan || in.NegCan || in.NegInf != 1 || GFloat(in.Exact) != 1e308 {
+		return fmt.Errorf("GSumAnalyze {1e308,-1e308,1e308,-Inf}: %+v", in)
+	}
+	if in := GSumAnalyze([]float64{math.MaxFloat64 / 2, -3, math.MaxFloat64 / 4}); in.Overflows != 0 || in.PosCan || in.NegCan {
+		return fmt.Errorf("GSumAnalyze below the overflow threshold: %+v", in)
+	}
+	if in := GSumAnalyze([]float64{-math.MaxFloat64, -0x1p970}); in.Overflows != -1 || !in.NegCan || in.PosCan {
+		return fmt.Errorf("GSumAnalyze at the negative threshold: %+v", in)
+	}
 	return dotSelfTest()
 }
 
@@ -412,4 +424,78 @@ func GAbsDiffExact(got float64, exact *big.Float) float64 {
 func GFloat(x *big.Float) float64 {
 	f, _ := x.Float64()
 	return f
+}
+
+// GSumInfo describes the sum of float64 values that may be infinite or close
+// to the largest finite number.
+type GSumInfo struct {
+	PosInf, NegInf int        // how many values are +Inf / -Inf
+	NaNs           int        // how many values are NaN
+	Exact          *big.Float // exact sum of the finite values
+	SumAbs         *big.Float // exact sum of their magnitudes
+	Spread         int
+	// PosCan / NegCan: some order of floating-point addition of the finite
+	// values can overflow to +Inf / -Inf: the exact sum of the positive
+	// (negative) finite values, plus a guard band for the rounding of the
+	// partial sums, reaches the overflow threshold 2^1024 - 2^970. When both
+	// are false every partial sum of every order is finite.
+	PosCan, NegCan bool
+	// Overflows: +1 / -1 when the exact sum of the finite values itself
+	// rounds to +Inf / -Inf (whatever the order), 0 otherwise.
+	Overflows int
+}
+
+// GSumAnalyze computes GSumInfo for xs.
+func GSumAnalyze(xs []float64) GSumInfo {
+	var in GSumInfo
+	var fin, pos, neg []float64
+	for _, x := range xs {
+		switch {
+		case math.IsNaN(x):
+			in.NaNs++
+		case math.IsInf(x, 1):
+			in.PosInf++
+		case math.IsInf(x, -1):
+			in.NegInf++
+		default:
+			fin = append(fin, x)
+			if x > 0 {
+				pos = append(pos, x)
+			} else if x < 0 {
+				neg = append(neg, -x)
+			}
+		}
+	}
+	in.Exact, in.Spread = GExactSum(fin)
+	p, _ := GExactSum(pos)
+	n, _ := GExactSum(neg)
+	in.SumAbs = new(big.Float).SetPrec(gSumPrec).Add(p, n)
+	// threshold: the smallest magnitude that rounds to infinity
+	one := new(big.Float).SetPrec(gSumPrec).SetInt64(1)
+	thr := new(big.Float).SetMantExp(one, 1024) // takes the precision of one
+	thr.Sub(thr, new(big.Float).SetMantExp(one, 970))
+	guard := new(big.Float).SetPrec(gSumPrec).Mul(in.SumAbs, big.NewFloat(float64(len(fin)+1)*0x1p-50))
+	in.PosCan = new(big.Float).SetPrec(gSumPrec).Add(p, guard).Cmp(thr) >= 0
+	in.NegCan = new(big.Float).SetPrec(gSumPrec).Add(n, guard).Cmp(thr) >= 0
+	if in.Exact.Cmp(thr) >= 0 {
+		in.Overflows = 1
+	} else if new(big.Float).Neg(in.Exact).Cmp(thr) >= 0 {
+		in.Overflows = -1
+	}
+	return in
+}
+
+// GWithin reports whether the finite value got lies within tol of exact.
+func GWithin(got float64, exact *big.Float, tol *big.Float) bool {
+	if math.IsNaN(got) || math.IsInf(got, 0) {
+		return false
+	}
+	d := new(big.Float).SetPrec(gSumPrec).SetFloat64(got)
+	d.Sub(d, exact)
+	return d.Abs(d).Cmp(tol) <= 0
+}
+
+// GScale returns x*f exactly enough (f a small float64 factor).
+func GScale(x *big.Float, f float64) *big.Float {
+	return new(big.Float).SetPrec(gSumPrec).Mul(x, new(big.Float).SetFloat64(f))
 }
